@@ -25,3 +25,8 @@ def fill(claim, na):
       'Exhaustive table-versus-artifact agreement: all ~1 800 (form instance, mapping) pairs of the three years are compared with the field tree, kinds, export values, /MaxLen / maxChars, /Opt lists and XFA accessibility labels parsed from the 39 bundled PDF templates (stdlib PDF reader); exclusive check-box groups are decided by evaluating each mapping value function over the finite domain of its driving line; filing forms must have template, mappings and the sequence number the template prints.',
       'Trusted: sa/pdfx.py (object streams, AcroForm tree, XFA template packet) with floors on parsed fields/labels; eight label exceptions confirmed by reading are frozen in sa/data/label_exceptions.json, one per template field with a reason. Not decided: what pdftk does with the form data; NC filing-status boxes driven by five separate lines are not judged for exclusivity.',
       'cross-artifact agreement check (statically evaluated pdf_fields tables vs parsed PDF templates)', 'DESIGN.md §3 C18')
+
+    c('C07',
+      'Abstract interpretation of figure_tax over piecewise-affine functions of one real variable: for each year and each of the five filing statuses the function is folded into a partition of [0, 1e12] with exact rational pieces and compared, on the common refinement (every open piece and every break point, about 62 000 per run), with the statutory schedule built from an independent table of bracket edges; monotonicity, bounded step and QSS = MFJ are checked on the computed function; the three call sites per year must pass (line value, Form 1040 filing status) to the same year\'s function. All reals, not sampled incomes.',
+      'Trusted: sa/pwaffine.py (exits 2 if figure_tax leaves the piecewise-affine subset) and the bracket edges typed into sa/data/tax_schedules.json from Rev. Proc. 2020-45/2021-45/2022-38 (cross-validated: they reproduce every cell of all three tax tables and every worksheet row). Not decided: float rounding of b*x-d (at most 1 ulp before the cent rounding).',
+      'abstract interpretation (piecewise-affine domain) + exact comparison with a statutory oracle', 'DESIGN.md §3 C07')
